@@ -511,6 +511,43 @@ fn gen_content(rng: &mut Rng, big: bool) -> Content {
                 }
             }
         }
+        4 | 5 => {
+            // exactly N leftover single combos (N around 256, 512, 768, 1024): at most
+            // size-1 combos of every rank pair, so none is complete
+            let n = *rng.pick(&[255usize, 256, 256, 257, 511, 512, 512, 513, 768, 1024]);
+            let mut classes: Vec<(Kind, u8, u8)> = vec![];
+            for k in 0..13u8 {
+                classes.push((Kind::Pocket, 255, k));
+            }
+            for h in 0..12u8 {
+                for k in (h + 1)..13 {
+                    classes.push((Kind::Suited, h, k));
+                    classes.push((Kind::Offsuit, h, k));
+                }
+            }
+            rng.shuffle(&mut classes);
+            // a few complete rank pairs first (they are not leftovers)
+            let ncomplete = rng.range(0, 4) as usize;
+            let w = gen_w(rng);
+            for (kind, h, k) in classes.iter().take(ncomplete) {
+                for cb in rp_combos(*kind, *h, *k) {
+                    c.insert(cb, w);
+                }
+            }
+            let mut pool: Vec<(u8, u8)> = vec![];
+            for (kind, h, k) in classes.iter().skip(ncomplete) {
+                let mut combos = rp_combos(*kind, *h, *k);
+                rng.shuffle(&mut combos);
+                combos.pop(); // never the whole rank pair
+                pool.extend(combos);
+            }
+            rng.shuffle(&mut pool);
+            let w2 = gen_w(rng);
+            for cb in pool.into_iter().take(n) {
+                c.insert(cb, w2);
+            }
+            return c;
+        }
         3 => {
             // alternating weights along a row: no two neighbours mergeable
             let kind = *rng.pick(&[Kind::Pocket, Kind::Suited, Kind::Offsuit]);
